@@ -284,6 +284,35 @@ Theorem C09_linearizations_are_arrival_orders :
 Proof. exact linearization_arrival_order. Qed.
 Print Assumptions C09_linearizations_are_arrival_orders.
 
+(* the same for the results the model computes (time-sorted arrival) *)
+Theorem C09_strategy_result_winner_is_max :
+  forall cfgs T rs,
+    winner_is_max cfgs (acceptable (Best T) rs) (st_win (strategy_result cfgs (Best T) rs))
+    /\ forall D gap, no_suppressed_better cfgs (Deadline D gap) rs ->
+         winner_is_max cfgs (acceptable (Deadline D gap) rs) (st_win (strategy_result cfgs (Deadline D gap) rs)).
+Proof.
+  intros cfgs T rs. split.
+  - apply best_winner_is_max, by_time_arrival_order.
+  - intros D gap. apply deadline_winner_is_max_partial, by_time_arrival_order.
+Qed.
+Print Assumptions C09_strategy_result_winner_is_max.
+
+(* errors, silences, ineligible and late answers are immaterial: two relay lists with the same
+   acceptable offers give the same winning score, whatever else their relays do *)
+Theorem C09_result_depends_only_on_acceptable_offers :
+  forall cfgs T rs rs' ord ord',
+    arrival_order (Best T) rs ord -> arrival_order (Best T) rs' ord' ->
+    (forall i b, acceptable (Best T) rs i b <-> acceptable (Best T) rs' i b) ->
+    option_map p_score (st_win (result_of cfgs (Best T) ord)) = option_map p_score (st_win (result_of cfgs (Best T) ord')).
+Proof. exact best_score_depends_on_acceptable. Qed.
+Print Assumptions C09_result_depends_only_on_acceptable_offers.
+
+(* the call returns by the cut-off (hard timeout / deadline), whatever the relays do *)
+Theorem C09_returns_by_cutoff :
+  forall s rs, (0 <= cutoff s)%Z -> (0 <= elapsed s rs <= cutoff s)%Z.
+Proof. exact elapsed_bounds. Qed.
+Print Assumptions C09_returns_by_cutoff.
+
 (* ------------------------------------------------------------------------------------------- *)
 (* The check's predicate.  [Check.C09.P_b] is evaluated on the OBSERVED result of every case; its
    candidates are computed from the mock's call log and the relay scripts, not by the model.  When
